@@ -53,7 +53,7 @@ class CallEqvMonitor(Monitor):
         # (i) derived variant
         sub = Session(sess.mod, base, sess.text)
         steps = []
-        w = {"write_config": 4.0, "bind_config": 2.0, "divide_loop": 2.0, "reorder_loops": 1.0, "simplify": 1.0, "insert_pass": 1.0, "rename": 1.0, "cut_loop": 1.0, "delete_config": 1.0, "specialize": 1.0, "unroll_loop": 1.0}
+        w = {"write_config": 4.0, "bind_config": 2.0, "divide_loop": 2.0, "reorder_loops": 1.0, "simplify": 1.0, "insert_pass": 1.0, "rename": 1.0, "cut_loop": 1.0, "delete_config": 4.0, "specialize": 1.0, "unroll_loop": 1.0}
         for _ in range(rng.randint(1, 3)):
             st = random_step(sub, rng, w)
             if st is None:
